@@ -119,22 +119,47 @@ def magnitudes(rng, klass, n):
     return a, b
 
 
-def make(mags, dim, shape_is_array, as_int=False, via_ctor=False):
-    """Build the real operand.  dim = (name, unit, vec)."""
+ROUTES = ['unit text', '1/(1/u)', '(1/u)**-1', '(u**-1)**-1', '(u**2)**0.5',
+          'u*u/u', "text '(u)^-1' ** -1"]
+
+
+def unit_by_route(unit, route):
+    """The same unit quantity reached through different operations: the
+    exponent vectors must compare equal whatever produced them (negative
+    zeros, float round-off of 0.5*2, ...)."""
     from pgradd.Units import eval_qty
+    u = eval_qty(unit)
+    r = ROUTES[route % len(ROUTES)]
+    if r == 'unit text':
+        return u
+    if r == '1/(1/u)':
+        return 1 / (1 / u)
+    if r == '(1/u)**-1':
+        return (1 / u) ** -1
+    if r == '(u**-1)**-1':
+        return (u ** -1) ** -1
+    if r == '(u**2)**0.5':
+        return (u ** 2) ** 0.5
+    if r == 'u*u/u':
+        return u * u / u
+    return eval_qty('(%s)^-1' % unit) ** -1
+
+
+def make(mags, dim, shape_is_array, as_int=False, via_ctor=False, route=0):
+    """Build the real operand.  dim = (name, unit, vec)."""
     name, unit, vec = dim
     if name == 'bare zero':
         return 0 if as_int else 0.0
-    if shape_is_array and name != 'number':
+    if name == 'number':
+        return mags[0]
+    u = unit_by_route(unit, route)
+    if shape_is_array:
         if via_ctor:
             # the documented constructor: a bundle of scalar quantities
             from pgradd.Units import ArrayQuantity
-            return ArrayQuantity([m * eval_qty(unit) for m in mags])
-        return np.array(mags, dtype=float) * eval_qty(unit)
-    x = mags[0]
-    if name == 'number':
-        return x
-    return x * eval_qty(unit)
+            return ArrayQuantity([m * u for m in mags])
+        return np.array(mags, dtype=float) * u
+    return mags[0] * u
 
 
 def unpack(x):
@@ -173,8 +198,13 @@ def check_pair(ctx, key, da, db, mclass, shape, ma, mb):
     arr_a = shape in ('array.array', 'array.scalar')
     arr_b = shape in ('array.array', 'scalar.array')
     ctor = sum(map(ord, ''.join(map(str, key)))) % 2 == 1
-    A = make(ma, da, arr_a, via_ctor=ctor)
-    B = make(mb, db, arr_b, as_int=(len(key) % 2 == 0), via_ctor=not ctor)
+    hk = sum(map(ord, ''.join(map(str, key))))
+    ra, rb = hk % len(ROUTES), (hk // 7 + len(ma) + int(abs(ma[0]) * 1000)) \
+        % len(ROUTES)
+    A = make(ma, da, arr_a, via_ctor=ctor, route=ra)
+    B = make(mb, db, arr_b, as_int=(len(key) % 2 == 0), via_ctor=not ctor,
+             route=rb)
+    ctx.klass('unit routes: %s | %s' % (ROUTES[ra], ROUTES[rb]))
     a_is_q = da[2] is not None
     b_is_q = db[2] is not None
     if not (a_is_q or b_is_q):
@@ -194,6 +224,37 @@ def check_pair(ctx, key, da, db, mclass, shape, ma, mb):
         va = va * _si(da[1])
     if b_is_q:
         vb = vb * _si(db[1])
+    # the same quantity once more, arrived at through a NEGATIVE POWER as
+    # the last step (leaves negative zeros in the unused exponent slots);
+    # its observed SI magnitude (1 ulp from the nominal one) is the operand
+    tail = None
+    if hk % 3 == 0:
+        tail = [('(1/q)**-1', lambda q: (1 / q) ** -1),
+                ('(1/(q*q))**-0.5', lambda q: (1 / (q * q)) ** -0.5)][hk % 2]
+        if tail[0].endswith('-0.5') and (np.any(np.asarray(va) < 0) or
+                                         np.any(np.asarray(vb) < 0)):
+            tail = None
+    if tail is not None:
+        done = []
+        for nm, X, isq, v in (('a', A, a_is_q, va), ('b', B, b_is_q, vb)):
+            if not isq or np.any(np.asarray(v) == 0):
+                done.append((X, v))
+                continue
+            with np.errstate(all='ignore'):
+                o = observe(tail[1], X)
+            val = unpack(o['ok'])[0] if 'ok' in o else None
+            if 'exc' in o or not unpack(o['ok'])[2] or \
+                    not vals_close(val, v):
+                ctx.violation('%s of a quantity is not that quantity'
+                              % tail[0], {'unit': (da if nm == 'a'
+                                                   else db)[1]},
+                              {'got': repr(o.get('ok', o.get('exc')))[:160],
+                               'want_magnitude': repr(v)[:80]})
+                return
+            done.append((o['ok'], np.asarray(val, dtype=float) if np.ndim(
+                val) else float(val)))
+        (A, va), (B, vb) = done
+        ctx.klass('operand route tail: ' + tail[0])
     veca = da[2] if a_is_q else ZERO7
     vecb = db[2] if b_is_q else ZERO7
     bare_a = (not a_is_q) and float(va) == 0.0
@@ -201,7 +262,8 @@ def check_pair(ctx, key, da, db, mclass, shape, ma, mb):
     compatible = (a_is_q and b_is_q and same_vec(veca, vecb)) or \
         (a_is_q and bare_b) or (b_is_q and bare_a)
     case = {'a': [da[0], da[1], ma], 'b': [db[0], db[1], mb],
-            'mclass': mclass, 'shape': shape}
+            'mclass': mclass, 'shape': shape, 'key': key,
+            'routes': [ROUTES[ra], ROUTES[rb]]}
 
     def judge(op, o, want_kind, want_val=None, want_vec=None):
         ctx.evals()
@@ -462,8 +524,8 @@ def run_shard(ctx):
 def replay(ctx, case):
     da = [d for d in DIMS if d[0] == case['a'][0]][0]
     db = [d for d in DIMS if d[0] == case['b'][0]][0]
-    check_pair(ctx, ['replay'], da, db, case['mclass'], case['shape'],
-               case['a'][2], case['b'][2])
+    check_pair(ctx, case.get('key', ['replay']), da, db, case['mclass'],
+               case['shape'], case['a'][2], case['b'][2])
 
 
 def classify(v):
